@@ -17,13 +17,15 @@ SPEC = {
          'fakes': True, 'extra_libs': ['vmutate'], 'sinks': {'C13_reader_exec': 'sweep_judge'}, 'n': {'quick': 2, 'thorough': 12}},
     ],
     'rule': 'exhaustive single-site mutation sweep: honest traffic of both plugins (commit: 4 scenarios select / build / build with a leader-supplied RMN bundle '
-            'while RMN is disabled / wait; execute: the three phases; N=4 oracles) is serialised, every node of every JSON document (observation of one oracle, query, '
+            'while RMN is disabled / wait; execute: the three phases; N=4 oracles; each scenario under three discovery configurations: no discovery processor, discovery enabled with '
+            'contracts initialised, discovery enabled on a fresh instance) is serialised, every node of every JSON document (observation of one oracle, query, '
             'previous outcome, outcome fed to Reports, report, report info) is enumerated and mutated in 9 ways (null, empty, zero, 2^64-1, negative, duplicate element, '
             'delete, type confusion, big / odd string), and every callback that consumes the document is driven under recover() and a 3 s watchdog: ValidateObservation, '
             'then Outcome and Reports only with observations that individually passed validation, Observation / Query on mutated previous outcomes and queries, '
             'ShouldAccept / ShouldTransmit on mutated reports; plus random double-site mutations of the observation (quick 400, thorough 40 000) and a raw byte stream (truncated, random, single-byte corrupted, tiny literals) at every entry point. '
             'One case per (document, site, mutation, callback); the observable is the termination code (returned / panicked / watchdog). C13_reader_*: every answer a scripted contract reader gives while either plugin observes through the real ccipChainReader (all phases) is mutated at every JSON node in turn (reader results: nil-valued, empty, inconsistent). The RMN controller\'s response '
-            'handling is swept by the C06 harness (22 observation and 6 signature corruptions, nil sub-messages, garbage bodies). non-trivial: every case; distinct by digest',
+            'handling is swept by the C06 harness (sink C06_sweep, judged here too): every single anomaly and every PAIR of anomalies out of 38 observation-response and 14 signature-response anomalies '
+            '(extra / duplicate / missing lanes, root lengths 0/5/31/33, nil sub-messages, wrong ids and senders, wrong interval / on-ramp / digest, bad signatures, garbage bodies) applied to one response of an honest run; outcome kinds panic and watchdog are violations. non-trivial: every case; distinct by digest',
     'trusted': ['encoding/json, protobuf, math/big, hex.DecodeString, big.Int.SetString never panic on any input (library oracles)',
                 'logging calls with %v of arbitrary values do not panic',
                 'contract-reader results are those of the real ccipChainReader guards (nil big integers are turned into errors there) — the fakes answer within that contract'],
